@@ -492,3 +492,66 @@ def run(ctx):
     ctx.rule("C13.d", "both kernels raise when an integer dtype is requested with float weights, before allocating", 2)
     for kname in ("calculate_1d_frequencies", "calculate_nd_frequencies"):
         check_int_float_refusal(ctx, "C13.d", m, kname)
+
+    # ---- C13.e the coercion primitive itself ---------------------------------------------------------------------------
+    ctx.rule("C13.e", "_coerce_dtype promotes (np.promote_types of the current and the foreign dtype) and applies the result through "
+             "set_dtype; _eval_dtype admits integer / float kinds only; the dtype setter is set_dtype with checks on", 5)
+    cd = HB.methods["_coerce_dtype"]
+    ctx.saw(cd)
+    par = [p for p in cd.params() if p != "self"][0]
+    n_ok = n_paths = 0
+    why = []
+    for path in function_paths(cd.node):
+        if end_kind(path) == "raise":
+            continue
+        n_paths += 1
+        env = Env()
+        applied = None
+        for s_ in path:
+            if s_[0] == "stmt":
+                for c in calls_in(s_[1]):
+                    if U(c.func) == "self.set_dtype" and c.args:
+                        applied = env.expand(c.args[0], keep={par})
+            env.step(s_)
+        cs = [(U(s_[1]), s_[2]) for s_ in path if s_[0] == "cond"]
+        differs = [v for c, v in cs if "!=" in c and "dtype" in c] + [not v for c, v in cs if "==" in c and "dtype" in c]
+        unset = any(c in ("self._dtype is None", "self.dtype is None") and v for c, v in cs)
+        if differs and differs[-1]:
+            t = U(applied) if applied is not None else None
+            if unset:
+                good = t is not None and "promote_types" not in t and par in t
+            else:
+                good = applied is not None and isinstance(applied, ast.Call) and call_is(applied, "promote_types") and len(applied.args) == 2 \
+                    and {U(a) for a in applied.args} & {"self._dtype", "self.dtype"} and any(par in U(a) for a in applied.args)
+            if good:
+                n_ok += 1
+            else:
+                why.append(f"when the dtypes differ ({'no dtype yet' if unset else 'dtype set'}) set_dtype receives `{t}`")
+    ctx.check(n_ok >= 2 and not why, "C13.e", "HistogramBase._coerce_dtype:promotes",
+              "set_dtype(np.promote_types(self._dtype, <foreign>)) whenever that differs from the current dtype",
+              "; ".join(sorted(set(why))) or f"only {n_ok} applying path(s) found", cd.where)
+    ev_ = HB.methods["_eval_dtype"]
+    ctx.saw(ev_)
+    kinds = {}
+    for path in function_paths(ev_.node):
+        cs = [(U(s_[1]), s_[2]) for s_ in path if s_[0] == "cond" and s_[2]]
+        k = cs[-1][0] if cs else "else"
+        kinds[k] = end_kind(path)
+    ok_kinds = any("kind in 'iu'" in k or "kind in 'ui'" in k for k, e in kinds.items() if e == "return") and \
+        any("kind == 'f'" in k for k, e in kinds.items() if e == "return") and kinds.get("else") == "raise"
+    ctx.check(ok_kinds and len(kinds) == 3, "C13.e", "HistogramBase._eval_dtype:kinds", "integer and float kinds accepted, anything else ValueError",
+              f"_eval_dtype branches: {kinds}", ev_.where)
+    ds = HB.setters.get("dtype")
+    ctx.check(ds is not None and any(U(c) in ("self.set_dtype(value)", "self.set_dtype(value, check=True)") for c in calls_in(ds.node)),
+              "C13.e", "HistogramBase.dtype.setter", "h.dtype = t is set_dtype(t) with the checks on", "the dtype setter does not delegate to set_dtype(value)",
+              ds.where if ds else HB.where)
+    sd = HB.methods["set_dtype"]
+    d = sd.param_default("check")
+    ctx.check(isinstance(d, ast.Constant) and d.value is True, "C13.e", "HistogramBase.set_dtype:check-default", "check defaults to True",
+              "set_dtype no longer checks by default", sd.where)
+    # can_cast decides whether the checks may be skipped: it must be asked about (current -> target), not the reverse
+    cc = [c for c in calls_in(sd.node) if call_is(c, "can_cast")]
+    okcc = len(cc) == 1 and len(cc[0].args) == 2 and U(cc[0].args[0]) in ("self.dtype", "self._dtype") and \
+        U(cc[0].args[1]) == [p for p in sd.params() if p != "self"][0]
+    ctx.check(okcc, "C13.e", "HistogramBase.set_dtype:can_cast-direction", "checks skipped only when np.can_cast(current, target)",
+              f"can_cast call(s): {[U(c) for c in cc]}", sd.where)
